@@ -807,13 +807,48 @@ func checkErrorRecording(c *core.Ctx, p *load.Prog) {
 	propagators := map[types.Object]bool{}
 	isRead := func(call *ast.CallExpr) bool {
 		fn := trCanon(call.Fun)
-		if fn == "tr.readByte" || fn == "tr.r.ReadRune" || fn == "tr.r.ReadBytes" || fn == "tr.r.ReadByte" || fn == "tr.r.ReadSlice" || fn == "tr.r.ReadString" {
+		if fn == "tr.readByte" || fn == "tr.r.ReadRune" || fn == "tr.r.ReadBytes" || fn == "tr.r.ReadByte" || fn == "tr.r.ReadSlice" || fn == "tr.r.ReadString" || fn == "tr.r.Peek" || fn == "tr.r.ReadLine" {
 			return true
 		}
 		if cal := load.Callee(pkg.TypesInfo, call); cal != nil && propagators[cal] {
 			return true
 		}
 		return false
+	}
+	// helpers that record the error they are handed: a top-level statement of
+	// the body is <recv>.addError(<the error parameter>)
+	recorders := map[types.Object]bool{}
+	for _, fd := range funcsOfFiles(p, pkg, "tokenize.go", "token_tree.go") {
+		obj := pkg.TypesInfo.Defs[fd.Name]
+		if obj == nil || fd.Body == nil || fd.Name.Name == "addError" {
+			continue
+		}
+		params := map[types.Object]bool{}
+		if fd.Type.Params != nil {
+			for _, f := range fd.Type.Params.List {
+				for _, nm := range f.Names {
+					if o := pkg.TypesInfo.Defs[nm]; o != nil && isErrorType(o.Type()) {
+						params[o] = true
+					}
+				}
+			}
+		}
+		for _, st := range fd.Body.List {
+			es, ok := st.(*ast.ExprStmt)
+			if !ok {
+				continue
+			}
+			call, ok := es.X.(*ast.CallExpr)
+			if !ok || len(call.Args) != 1 {
+				continue
+			}
+			if sel, ok := call.Fun.(*ast.SelectorExpr); !ok || sel.Sel.Name != "addError" {
+				continue
+			}
+			if id, ok := ast.Unparen(call.Args[0]).(*ast.Ident); ok && params[pkg.TypesInfo.ObjectOf(id)] {
+				recorders[obj] = true
+			}
+		}
 	}
 	for changed := true; changed; {
 		changed = false
@@ -1050,6 +1085,16 @@ func checkErrorRecording(c *core.Ctx, p *load.Prog) {
 						call, ok := m.(*ast.CallExpr)
 						if ok && isMethodCall(call, "tr", "unreadByte") && int(s)&^wNil != 0 {
 							unreadBad = "unreadByte() at " + p.Pos(call.Pos()) + " is reachable with the error of the read possibly not nil"
+						}
+						// a helper that records its error parameter on every way through
+						if ok && !isMethodCall(call, "tr", "addError") {
+							if cal := load.Callee(info, call); cal != nil && recorders[cal] {
+								for _, a := range call.Args {
+									if isE(a) {
+										rec = true
+									}
+								}
+							}
 						}
 						if !ok || !isMethodCall(call, "tr", "addError") || len(call.Args) != 1 {
 							return true
